@@ -136,13 +136,41 @@ def program(spec):
     return defines(spec) + categories(spec) + associations(spec)
 
 
+def _split_category(spec):
+    """(head, rest): the first asset of the first category in a block of its own / the same category again with its other
+    assets followed by the other categories. None unless this keeps the declaration order of the specification."""
+    if not spec['categories'] or not spec['assets']:
+        return None
+    first = spec['categories'][0]
+    a0 = spec['assets'][0]
+    grouped = [a for c in spec['categories'] for a in spec['assets'] if a['category'] == c['name']]
+    if a0['category'] != first['name'] or [a['name'] for a in grouped] != [a['name'] for a in spec['assets']]:
+        return None
+    if len([a for a in spec['assets'] if a['category'] == first['name']]) < 2:
+        return None
+    head = 'category %s\n%s{\n%s}\n' % (first['name'], meta(first['meta'], '  '), asset(a0))
+    rest = ''
+    for c in spec['categories']:
+        rest += 'category %s\n%s{\n' % (c['name'], meta(c['meta'], '  '))
+        for a in spec['assets']:
+            if a['category'] == c['name'] and a is not a0:
+                rest += asset(a)
+        rest += '}\n'
+    return head, rest
+
+
 def layouts(spec):
     """{layout name: {file name: text}}; root file is main.mal."""
     d, c, a = defines(spec), categories(spec), associations(spec)
-    return {
+    extra = {}
+    sc = _split_category(spec)
+    if sc is not None:
+        extra['category_split_over_include'] = {'main.mal': d + 'include "head.mal"\n' + sc[1] + a, 'head.mal': sc[0]}
+        extra['category_reopened'] = {'main.mal': d + sc[0] + sc[1] + a}
+    return dict(extra, **{
         'single': {'main.mal': d + c + a},
         'assets_included': {'main.mal': d + 'include "cats.mal"\n' + a, 'cats.mal': c},
         'assocs_included': {'main.mal': d + c + 'include "assocs.mal"\n', 'assocs.mal': a if a else 'associations {\n}\n'},
         'include_twice': {'main.mal': d + 'include "cats.mal"\n' + 'include "cats.mal"\n' + a, 'cats.mal': c},
         'nested': {'main.mal': 'include "mid.mal"\n' + a, 'mid.mal': d + 'include "cats.mal"\n', 'cats.mal': c},
-    }
+    })
